@@ -29,7 +29,10 @@ def main():
         obs = common.run_tasks(tasks, inline=a.inline)
         if hasattr(pm, "post"):
             obs = pm.post(obs, a.tier, rep) or obs
-        rep.add_functions(pm.functions())
+        from vc import front
+        rep.add_functions(front.shas(sorted({f for o in obs for f in o.get("functions", []) if f and ":" not in f})))
+        if hasattr(pm, "functions"):
+            rep.add_functions(pm.functions())
         code = rep.finish(obs)
     except Exception:
         traceback.print_exc()
